@@ -66,12 +66,21 @@ static void gen_move(opcase_t *c, rng_t *r, int maxdim) {
   }
   case M_COPY: {
     c->in[1] = gen_mat(r, m, n, p);
-    if (rng_chance(r, 1, 2)) {
+    int t = rng_int(r, 0, 7);
+    c->overwr[0] = 1;
+    if (t < 3) {
       c->in[0] = gen_mat(r, m, n, PAT_DENSE);
       extra = "DST=given";
+    } else if (t < 5) {
+      /* mzd_copy accepts a larger target (it only rejects a smaller one): the block is placed top-left, the rest stays */
+      int dm = rng_int(r, 0, 3), dn = rng_chance(r, 1, 3) ? 0 : rng_int(r, 1, 130);
+      if (!dm && !dn) dn = 1;
+      c->in[0] = gen_mat(r, m + dm, n + dn, PAT_DENSE);
+      c->overwr[0] = 0;
+      extra = "DST=larger";
+      snprintf(c->pcls, sizeof c->pcls, "larger-dst");
     } else
       extra = "DST=NULL";
-    c->overwr[0] = 1;
     break;
   }
   case M_COPY_ROW: {
@@ -193,7 +202,16 @@ static void check_move(opcase_t *c) {
     E = rm_transpose(INV(c, 1));
     break;
   }
-  case M_COPY: E = rm_copy(INV(c, 1)); break;
+  case M_COPY: {
+    const rm_t *A = INV(c, 1);
+    if (c->in[0] && (c->in[0]->m != A->m || c->in[0]->n != A->n)) {
+      E = rm_copy(c->in[0]);
+      for (int i = 0; i < A->m; i++)
+        for (int j = 0; j < A->n; j++) RM(E, i, j) = RM(A, i, j);
+    } else
+      E = rm_copy(A);
+    break;
+  }
   case M_COPY_ROW: {
     E = rm_copy(INV(c, 0));
     const rm_t *A = INV(c, 1);
